@@ -246,11 +246,175 @@ impl Queryable for F64Json {
     }
 }
 
+// ---------------------------------------------------------------------------------------------
+// DagJson: equal subtrees are physically shared (one Arc'd container reachable under several
+// paths, so a node's address does not identify its location), and PartialEq compares numbers
+// with a relative tolerance of 1e-9 (a measurement type) - inside containers too. Both are
+// things the trait does not rule out: the engine must compare through the accessors and must
+// identify nodes by where it found them.
+
+#[derive(Clone)]
+pub enum DagJson {
+    N,
+    B(bool),
+    I(i64),
+    F(f64),
+    S(String),
+    A(std::sync::Arc<Vec<DagJson>>),
+    O(std::sync::Arc<Vec<(String, DagJson)>>),
+}
+impl PartialEq for DagJson {
+    fn eq(&self, o: &Self) -> bool {
+        let num = |v: &DagJson| match v {
+            DagJson::I(i) => Some(*i as f64),
+            DagJson::F(f) => Some(*f),
+            _ => None,
+        };
+        if let (Some(a), Some(b)) = (num(self), num(o)) {
+            return a == b || (a - b).abs() <= 1e-9 * a.abs().max(b.abs());
+        }
+        match (self, o) {
+            (DagJson::N, DagJson::N) => true,
+            (DagJson::B(a), DagJson::B(b)) => a == b,
+            (DagJson::S(a), DagJson::S(b)) => a == b,
+            (DagJson::A(a), DagJson::A(b)) => a == b,
+            (DagJson::O(a), DagJson::O(b)) => a.len() == b.len() && a.iter().all(|(k, v)| b.iter().any(|(k2, v2)| k == k2 && v == v2)),
+            _ => false,
+        }
+    }
+}
+impl Default for DagJson {
+    fn default() -> Self {
+        DagJson::B(false)
+    }
+}
+impl fmt::Debug for DagJson {
+    fn fmt(&self, f: &mut fmt::Formatter<'_>) -> fmt::Result {
+        write!(f, "DagJson")
+    }
+}
+impl From<&str> for DagJson {
+    fn from(s: &str) -> Self {
+        DagJson::S(s.to_string())
+    }
+}
+impl From<String> for DagJson {
+    fn from(s: String) -> Self {
+        DagJson::S(s)
+    }
+}
+impl From<bool> for DagJson {
+    fn from(b: bool) -> Self {
+        DagJson::B(b)
+    }
+}
+impl From<i64> for DagJson {
+    fn from(i: i64) -> Self {
+        DagJson::I(i)
+    }
+}
+impl From<f64> for DagJson {
+    fn from(f: f64) -> Self {
+        DagJson::F(f)
+    }
+}
+impl From<Vec<DagJson>> for DagJson {
+    fn from(v: Vec<DagJson>) -> Self {
+        DagJson::A(std::sync::Arc::new(v))
+    }
+}
+impl Queryable for DagJson {
+    fn get(&self, key: &str) -> Option<&Self> {
+        let key = unquote(key);
+        match self {
+            DagJson::O(m) => m.iter().find(|(k, _)| k == key).map(|(_, v)| v),
+            _ => None,
+        }
+    }
+    fn as_array(&self) -> Option<&Vec<Self>> {
+        match self {
+            DagJson::A(l) => Some(&**l),
+            _ => None,
+        }
+    }
+    fn as_object(&self) -> Option<Vec<(&String, &Self)>> {
+        match self {
+            DagJson::O(m) => Some(m.iter().map(|(k, v)| (k, v)).collect()),
+            _ => None,
+        }
+    }
+    fn as_str(&self) -> Option<&str> {
+        match self {
+            DagJson::S(s) => Some(s),
+            _ => None,
+        }
+    }
+    fn as_i64(&self) -> Option<i64> {
+        match self {
+            DagJson::I(i) => Some(*i),
+            _ => None,
+        }
+    }
+    fn as_f64(&self) -> Option<f64> {
+        match self {
+            DagJson::F(f) => Some(*f),
+            DagJson::I(i) => Some(*i as f64),
+            _ => None,
+        }
+    }
+    fn as_bool(&self) -> Option<bool> {
+        match self {
+            DagJson::B(b) => Some(*b),
+            _ => None,
+        }
+    }
+    fn null() -> Self {
+        DagJson::N
+    }
+}
+/// builds the DAG: containers with the same JSON text become one shared allocation
+fn to_dag(j: &J, pool: &mut std::collections::HashMap<String, DagJson>, shared: &mut u64) -> DagJson {
+    match j {
+        J::Null => DagJson::N,
+        J::Bool(b) => DagJson::B(*b),
+        J::Num(N::Int(i)) => DagJson::I(*i),
+        J::Num(N::Big(u)) => DagJson::F(*u as f64),
+        J::Num(N::Float(f)) => DagJson::F(*f),
+        J::Str(s) => DagJson::S(s.clone()),
+        J::Arr(_) | J::Obj(_) => {
+            let key = j.to_text();
+            if let Some(d) = pool.get(&key) {
+                *shared += 1;
+                return d.clone();
+            }
+            let d = match j {
+                J::Arr(a) => DagJson::A(std::sync::Arc::new(a.iter().map(|c| to_dag(c, pool, shared)).collect())),
+                J::Obj(o) => DagJson::O(std::sync::Arc::new(o.iter().map(|(k, v)| (k.clone(), to_dag(v, pool, shared))).collect())),
+                _ => unreachable!(),
+            };
+            pool.insert(key, d.clone());
+            d
+        }
+    }
+}
+fn from_dag(v: &DagJson) -> J {
+    match v {
+        DagJson::N => J::Null,
+        DagJson::B(b) => J::Bool(*b),
+        DagJson::I(i) => J::int(*i),
+        DagJson::F(f) => J::float(*f),
+        DagJson::S(s) => J::Str(s.clone()),
+        DagJson::A(l) => J::Arr(l.iter().map(from_dag).collect()),
+        DagJson::O(m) => J::Obj(m.iter().map(|(k, v)| (k.clone(), from_dag(v))).collect()),
+    }
+}
+
 fn to_vec(j: &J, reverse: bool) -> VecJson {
     match j {
         J::Null => VecJson::Nul,
         J::Bool(b) => VecJson::Boolean(*b),
         J::Num(N::Int(i)) => VecJson::Int(*i),
+        J::Num(N::Big(u)) => VecJson::Float(*u as f64),
         J::Num(N::Float(f)) => VecJson::Float(*f),
         J::Str(s) => VecJson::Text(s.clone()),
         J::Arr(a) => VecJson::List(a.iter().map(|c| to_vec(c, reverse)).collect()),
@@ -341,6 +505,18 @@ pub fn run(ctx: &Ctx) -> Result<Evidence, String> {
         docs.push(gen::random_doc(&mut rng, &cfg));
     }
     docs.extend(gen::boundary_docs());
+    // documents in which equal subtrees occur at several places (DagJson shares them)
+    for k in 0..ctx.tier.pick(200, 2000) {
+        let d = if k % 4 == 0 { gen::curated_docs()[k / 4 % gen::curated_docs().len()].clone() } else { gen::random_doc(&mut rng, &cfg) };
+        if d.node_count() > 120 {
+            continue;
+        }
+        docs.push(match k % 3 {
+            0 => J::Obj(vec![("a".into(), d.clone()), ("b".into(), d.clone()), ("c".into(), J::Arr(vec![d.clone(), J::int(1), d]))]),
+            1 => J::Arr(vec![d.clone(), J::Obj(vec![("a".into(), d.clone()), ("b".into(), J::Arr(vec![d.clone()]))]), d]),
+            _ => J::Obj(vec![("fiction".into(), J::Arr(vec![d.clone(), d.clone()])), ("reference".into(), J::Arr(vec![d.clone(), d]))]),
+        });
+    }
     let n_general = docs.len();
     let u = crate::c04::universe();
     let mut pair_docs = vec![];
@@ -398,6 +574,26 @@ pub fn run(ctx: &Ctx) -> Result<Evidence, String> {
             d = &vdoc;
             fam = "functions";
         }
+        // integers above i64::MAX cannot be expressed through the trait's accessors at all
+        // (as_i64 / as_f64): no other implementation can be a faithful view of such a document
+        fn has_u64(j: &J) -> bool {
+            match j {
+                J::Num(N::Big(_)) => true,
+                J::Arr(a) => a.iter().any(has_u64),
+                J::Obj(o) => o.iter().any(|(_, v)| has_u64(v)),
+                _ => false,
+            }
+        }
+        // several descendant segments over a large document multiply the work of four
+        // implementations; those combinations are C01's business
+        if fam == "general" && q.matches("..").count() >= 2 && d.node_count() > 150 {
+            acc.count("skipped_multi_descendant_on_large_document", 1);
+            return;
+        }
+        if has_u64(d) {
+            acc.count("documents_with_integers_beyond_i64_not_viewable_through_the_trait", 1);
+            return;
+        }
         acc.evaluations += 1;
         acc.count(&format!("family_{}", fam), 1);
         let doc = Doc::new(d);
@@ -442,6 +638,7 @@ pub fn run(ctx: &Ctx) -> Result<Evidence, String> {
         fn has_big_int(j: &J) -> bool {
             match j {
                 J::Num(N::Int(i)) => i.unsigned_abs() > 9007199254740991,
+                J::Num(N::Big(_)) => true,
                 J::Arr(a) => a.iter().any(has_big_int),
                 J::Obj(o) => o.iter().any(|(_, v)| has_big_int(v)),
                 _ => false,
@@ -452,6 +649,17 @@ pub fn run(ctx: &Ctx) -> Result<Evidence, String> {
         } else if !same(&base_f, &got_f) {
             report("F64Json (all numbers f64)", &got_f);
             ok = false;
+        }
+        // DagJson: shared subtrees, tolerant PartialEq
+        {
+            let mut shared = 0u64;
+            let dj = to_dag(&doc.j, &mut std::collections::HashMap::new(), &mut shared);
+            let got_d = run_at(q, &dj, &from_dag);
+            acc.count("dagjson_shared_container_occurrences", shared);
+            if !same(&base, &got_d) {
+                report("DagJson (equal subtrees shared, PartialEq with a numeric tolerance)", &got_d);
+                ok = false;
+            }
         }
         // secondary: VecJson with reversed member order against the reference evaluator run on
         // that view (queries without unions: the open union-order finding would interfere)
@@ -499,7 +707,7 @@ pub fn run(ctx: &Ctx) -> Result<Evidence, String> {
     });
     let mut ev = Evidence::new("cases = (query, document) evaluated by the same generic engine at three Queryable types: serde_json::Value, VecJson (objects as ordered vectors, Int/Float strictly separate accessors, Default != null, opaque Debug) and F64Json (all numbers f64, numeric PartialEq, Default = \"\"); paths must be identical and values deep-equal (numbers by value). Families: the C01 selector pool and random queries x small/curated/random documents, the C04 comparison universe (all ordered pairs x operators x literal kinds), the C10 function sweep. A VecJson view with reversed member order is compared with the reference evaluator run over that view. Non-trivial = distinct (query, document) with a non-empty result.");
     ev.set("exhaustive", json!(false));
-    ev.set("implementations", json!(["serde_json::Value", "VecJson", "F64Json", "VecJson (reversed member order)"]));
+    ev.set("implementations", json!(["serde_json::Value", "VecJson", "F64Json", "DagJson", "VecJson (reversed member order)"]));
     ev.assume("two further faithful Queryable implementations stand for 'all implementations'; their get() honours the documented key contract (enclosing quotes stripped)");
     ev.min_nontrivial = 1000;
     acc.into_evidence(&mut ev);
